@@ -282,11 +282,15 @@ func lenDelimEnd(p []byte, o int) int { return o + varintLen(p, o) + int(varintV
 // free of overflow.
 const maxLen = 1 << 47
 
+// maxBuf: the largest slice length (the engine's slice sizes are 48-bit quantities, the amd64
+// allocation limit); a declared length beyond it can never lie inside a buffer.
+const maxBuf = 1<<48 - 1
+
 // lenDelimOK: a length prefix is present and the declared payload lies inside p.
 func lenDelimOK(p []byte, o int) bool {
 	n := varintLen(p, o)
 	l := int(varintVal(p, o))
-	return n != 0 && l >= 0 && l <= maxLen && o+n+l <= len(p)
+	return n != 0 && l >= 0 && l <= maxBuf && o+n+l <= len(p)
 }
 
 // lenDelimStrict: ... and it is what a conforming writer emits (length below 2 GiB).
@@ -298,7 +302,7 @@ func lenDelimStrict(p []byte, o int) bool {
 func lenDelimTooLong(p []byte, o int) bool {
 	n := varintLen(p, o)
 	l := int(varintVal(p, o))
-	return n != 0 && (l < 0 || l > maxLen || o+n+l > len(p))
+	return n != 0 && (l < 0 || l > maxBuf || o+n+l > len(p))
 }
 
 // ---- lemma carriers (see common.contracts)
